@@ -83,6 +83,8 @@ pub fn replay<T: Sc>(calls: &[(String, Vec<String>, i64)]) -> Result<Vec<String>
             "X" => cur
                 .expect("call before new")
                 .independent_variable(DVector::from_element(3, T::one())),
+            // an independent variable without samples is a given independent variable
+            "X0" => cur.expect("call before new").independent_variable(DVector::from_vec(vec![])),
             "P" => {
                 // every call gives its own values: the LAST call is the one that counts
                 p_calls += 1;
@@ -233,6 +235,9 @@ fn beyond_universe<T: Sc>(rep: &mut Report) {
     }
     cases.push(("initial parameters given twice (the second call counts)", vec![c("N", &["a", "b"], 0), c("P", &[], 2), c("F", &["b", "a"], 2), c("D", &["a"], 2), c("D", &["b"], 2), c("P", &[], 2), c("X", &[], 0)], None));
     cases.push(("initial parameters given three times", vec![c("N", &["a"], 0), c("P", &[], 1), c("P", &[], 1), c("F", &["a"], 1), c("D", &["a"], 1), c("X", &[], 0), c("P", &[], 1)], None));
+    cases.push(("independent variable without samples", vec![c("N", &["a", "b"], 0), c("F", &["b", "a"], 2), c("D", &["a"], 2), c("D", &["b"], 2), c("X0", &[], 0), c("P", &[], 2)], None));
+    cases.push(("independent variable without samples after one with samples", vec![c("N", &["a"], 0), c("X", &[], 0), c("F", &["a"], 1), c("D", &["a"], 1), c("X0", &[], 0), c("P", &[], 1)], None));
+    cases.push(("independent variable without samples, no initial parameters", vec![c("N", &["a"], 0), c("F", &["a"], 1), c("D", &["a"], 1), c("X0", &[], 0)], Some("MissingInitialParameters")));
     cases.push(("seventy parameters, all used", seventy(None), None));
     cases.push(("seventy parameters, q64 unused", seventy(Some(64)), Some("UnusedParameter")));
     cases.push(("seventy parameters, q69 unused", seventy(Some(69)), Some("UnusedParameter")));
